@@ -14,7 +14,7 @@ type Replay struct {
 	Expected string         `json:"expected,omitempty"`
 	Observed string         `json:"observed,omitempty"`
 	What     string         `json:"what,omitempty"`
-	Broken   map[string]any `json:"broken,omitempty"`
+	Broken   any            `json:"broken,omitempty"`
 }
 
 // ReadReplayOps returns the operation lines of a replay file.
